@@ -275,6 +275,18 @@ func c17Aux(r *core.Run, p *core.Prog, typ string) {
 		}
 		r.Check(rule, typ+":field:"+fname+":source", p.Rel(el.Pos()), okSrc, fmt.Sprintf("auxiliary field %s is filled from %s", fname, core.Str(val)))
 	}
+	// the value being marshalled must not be transformed first
+	core.Walk(f.Decl.Body, false, func(x ast.Node) bool {
+		if a, ok := x.(*ast.AssignStmt); ok {
+			for _, l := range a.Lhs {
+				if sel, ok := ast.Unparen(l).(*ast.SelectorExpr); ok && core.ObjOf(info, sel.X) == recv {
+					r.Check(rule, typ+":field:"+sel.Sel.Name+":encoded-unmodified", p.Rel(a.Pos()), false,
+						fmt.Sprintf("%s.MarshalJSON rewrites %s before encoding it (%s): the decoded value differs from the one that was encoded", typ, core.Str(l), core.Str(a.Rhs[0])))
+				}
+			}
+		}
+		return true
+	})
 	// later assignments aux.X = &recv.X
 	core.Walk(f.Decl.Body, false, func(x ast.Node) bool {
 		if a, ok := x.(*ast.AssignStmt); ok && len(a.Lhs) == 1 {
